@@ -341,8 +341,14 @@ func (s *Stack) ForEach(expr string, fn func(index int, value any) error) error 
 		keys := rv.MapKeys()
 		// Go randomises map iteration; visit keys in a stable order so that the
 		// same template and data always render the same bytes.
+		// (Keys of different types can print alike - 1 and "1" in a map[any]T;
+		// the type decides between them.)
 		sort.Slice(keys, func(i, j int) bool {
-			return fmt.Sprint(keys[i].Interface()) < fmt.Sprint(keys[j].Interface())
+			a, b := keys[i].Interface(), keys[j].Interface()
+			if sa, sb := fmt.Sprint(a), fmt.Sprint(b); sa != sb {
+				return sa < sb
+			}
+			return fmt.Sprintf("%T", a) < fmt.Sprintf("%T", b)
 		})
 		for i, key := range keys {
 			if err := fn(i, rv.MapIndex(key).Interface()); err != nil {
